@@ -18,7 +18,7 @@ def run(run, scr, tier, seed, only=None):
           Harness('verif_kani::c01::c01_a2_hint_duality', 'C01', timeout=900, bounds='every unreduced x = w - cs2 in (-q, q), every ct0 with |ct0| < gamma2, all three sets'),
           Harness('verif_kani::c01::c01_a2_negative_control', 'C01', timeout=900, bounds='same, side condition relaxed by 2: the cover must be reachable'),
           Harness('verif_kani::c01::c01_use_hint_flips', 'C01', timeout=900, bounds='every r in Z_q, both gamma2')]
-    skelprops.run_prop(run, scr, tier, seed, 'C01', e1=e1, diff=('sign', 'derive'), diff_load=(2, 60), only=only)
+    skelprops.run_prop(run, scr, tier, seed, 'C01', e1=e1, diff=('sign', 'derive', 'roundtrip_search'), diff_load=(2, 60), only=only)
     return run.finish(
         rule='lemma obligations (Kani, whole coefficient domain) + skeleton obligations of sign_internal / verify_internal / key paths tagged C01 (unbounded in K, L, message and context length)',
         checker_cmd='./check C01', trusted_base=skelprops.TRUSTED)
